@@ -280,19 +280,20 @@ def CompleteOwnerOk (s : State) (b k : Bytes) (id : Nat) (pl : List (Option Int)
     | none => True
     | some cs => sizesOk cs = true → CompleteSuccessOk s b k id)
 
-/-- `complete_multipart_upload` comparable: a non-empty part list is given [else fs:complete-part-list-validation], the
-    upload exists for this bucket and key [fs:unknown-upload-code, fs:upload-not-bound-to-key], and if the requester owns
-    it the request meets `CompleteOwnerOk` -/
+/-- `complete_multipart_upload` comparable: a non-empty part list is given [else fs:complete-part-list-validation]; the
+    upload does not exist (`NoSuchUpload` on both sides since 38336b0; before: fs:unknown-upload-code), or it was created for
+    this bucket and key [else fs:upload-not-bound-to-key] and, if the requester owns it, the request meets
+    `CompleteOwnerOk` -/
 def CompleteOk (s : State) (who : Who) (b k : Bytes) (u : UploadRef) (parts : Option (List (Option Int))) : Prop :=
   match parts with
   | none => False
   | some pl =>
     pl ≠ [] ∧
     match u with
-    | none => False
+    | none => True
     | some id =>
       match alLookup id s.uploads with
-      | none => False
+      | none => True
       | some ui => ui.bucket = b ∧ ui.key = k ∧ (ui.owner = who → CompleteOwnerOk s b k id pl)
 
 end S3V.FsStore
@@ -389,11 +390,19 @@ theorem complete_refines (H : Hashes) (dl : Nat) {s : State} (hi : Inv s) {who :
     simp only at hg
     obtain ⟨hne, hg⟩ := hg
     cases u with
-    | none => exact absurd hg (by simp)
+    | none =>
+      cases pl with
+      | nil => exact absurd rfl hne
+      | cons o t => simp [step, StoreSpec.step, Store.upload, hi]
     | some id =>
       simp only at hg
       cases hl : alLookup id s.uploads with
-      | none => rw [hl] at hg; exact absurd hg (by simp)
+      | none =>
+        have habs : AbsentUpload s (some id) := hl
+        have hup := habs.upload b k
+        cases pl with
+        | nil => exact absurd rfl hne
+        | cons o t => simp [step, StoreSpec.step, hup, habs.verify who, hi]
       | some ui =>
         rw [hl] at hg
         simp only at hg
